@@ -399,7 +399,7 @@ func checkTree(res *core.Result, in treeInput, idx int, verbose bool) {
 			if len(diffs) > 0 {
 				df := diffs[0]
 				class := fmt.Sprintf("%s sees %s %s%s", relName(x), df.Kind, whereIn(x, df.Path, on), strat(in))
-				if nestedGlobal(df.Path) && df.Kind != "missing" {
+				if in.Stratum != "unlisted" && nestedGlobal(df.Path) && df.Kind != "missing" {
 					class = nestedGlobalClass
 				}
 				add(res, seen, "scope-values", class,
@@ -425,7 +425,7 @@ func checkTree(res *core.Result, in treeInput, idx int, verbose bool) {
 			if bad != "" {
 				p := strings.SplitN(bad, "|", 2)
 				class := fmt.Sprintf("%s: %s%s", relName(x), p[0], strat(in))
-				if strings.HasSuffix(p[0], "#nested") {
+				if in.Stratum != "unlisted" && strings.HasSuffix(p[0], "#nested") {
 					class = nestedGlobalClass
 				}
 				add(res, seen, "isolation-provenance", class, "route %s: chart %s prints leaf %q | observed .Values %s | %s", rt.name, x.path(), p[1], ref.J(got), input())
@@ -478,7 +478,7 @@ func checkTree(res *core.Result, in treeInput, idx int, verbose bool) {
 							under = "global"
 						}
 						class := fmt.Sprintf("changing only the section of a %s changes the %s of a %s%s", relName(y), under, rel, strat(in))
-						if len(diffs) > 0 && nestedGlobal(diffs[0].Path) {
+						if in.Stratum != "unlisted" && len(diffs) > 0 && nestedGlobal(diffs[0].Path) {
 							class = nestedGlobalClass
 						}
 						add(res, seen, "isolation-rerender", class,
